@@ -30,6 +30,8 @@ type Case struct {
 	Phase  int            `json:"phase"`
 	// Transient: the sink fails once and accepts every later write.
 	Transient bool `json:"transient,omitempty"`
+	// Wrap: the rows reach the writer through a row-writer wrapper ("" none | filter | transform | multi | dedupe).
+	Wrap string `json:"wrap,omitempty"`
 	// Big: one row group whose columns hold tens of kilobytes (several chunks of a pooled page buffer).
 	Big bool `json:"big,omitempty"`
 }
@@ -46,6 +48,12 @@ func genCase(t *rapid.T) Case {
 	c.Stride = kit.Pick([]int{1, 1, 3, 7}, []int{1})[rapid.IntRange(0, kit.Pick(3, 0)).Draw(t, "stride")]
 	c.Phase = rapid.IntRange(0, 6).Draw(t, "phase")
 	c.Transient = rapid.IntRange(0, 2).Draw(t, "transient") == 0
+	c.Wrap = []string{"", "", "", "filter", "transform", "multi", "dedupe"}[rapid.IntRange(0, 6).Draw(t, "wrap")]
+	if c.Wrap != "" && rapid.Bool().Draw(t, "wrapaim") {
+		// an error that only the wrapper's WriteRows sees: unbuffered writer, sink failing once
+		// (row groups flushed from inside WriteRows)
+		c.Transient, c.Opts.WriteBuf, c.Opts.MaxRows = true, -1, int64([]int{3, 7, 20}[rapid.IntRange(0, 2).Draw(t, "wrapmr")])
+	}
 	if rapid.IntRange(0, 5).Draw(t, "big") == 0 {
 		c.Big = true
 		c.Plan = gen.RowsAtLeast(t, &c.Schema, 6, 500, 700, gen.ValueOpts{Style: gen.Mixed, Leaf: gen.Opts{MaxBytes: 200}})
@@ -92,6 +100,9 @@ func (s *sink) Write(p []byte) (int, error) {
 
 // writeTo runs the whole write history against w; it returns the first error
 // reported by Write/Flush/Close (Close is always called).
+// shortWrites is the number of short-count-nil-error WriteRows calls of the last writeTo.
+var shortWrites int
+
 func writeTo(c Case, cols []ref.Column, rows []parquet.Row, out io.Writer, tmp string) (err error, panicked any) {
 	defer func() {
 		if r := recover(); r != nil {
@@ -104,12 +115,46 @@ func writeTo(c Case, cols []ref.Column, rows []parquet.Row, out io.Writer, tmp s
 		opts = append(opts, parquet.WithEncryption(&parquet.EncryptionConfig{FooterKey: []byte("0123456789abcdef"), EncryptedFooter: c.Enc == 1, FileIdentifier: []byte("verif-id")}))
 	}
 	w := parquet.NewWriter(out, opts...)
-	werr := pq.ApplyOps(w, rows, c.Ops)
+	short := 0
+	werr := pq.ApplyOps(wrapped{Writer: w, rw: wrapRows(c.Wrap, w), short: &short}, rows, c.Ops)
 	cerr := w.Close()
+	shortWrites = short
 	if werr != nil {
 		return werr, nil
 	}
 	return cerr, nil
+}
+
+// wrapped sends WriteRows through a row-writer wrapper; Flush and Close go to the writer.
+type wrapped struct {
+	*parquet.Writer
+	rw    parquet.RowWriter
+	short *int // number of WriteRows calls that returned fewer rows than given and a nil error
+}
+
+// WriteRows reports a short count with a nil error as a full write (counting it): the
+// property asks for a non-nil error from some call, a short count alone is not one.
+func (w wrapped) WriteRows(rows []parquet.Row) (int, error) {
+	n, err := w.rw.WriteRows(rows)
+	if err == nil && n < len(rows) {
+		*w.short++
+		return len(rows), nil
+	}
+	return n, err
+}
+
+func wrapRows(kind string, w *parquet.Writer) parquet.RowWriter {
+	switch kind {
+	case "filter":
+		return parquet.FilterRowWriter(w, func(parquet.Row) bool { return true })
+	case "transform":
+		return parquet.TransformRowWriter(w, func(dst, src parquet.Row) (parquet.Row, error) { return append(dst, src...), nil })
+	case "multi":
+		return parquet.MultiRowWriter(w)
+	case "dedupe":
+		return parquet.DedupeRowWriter(w, func(a, b parquet.Row) int { return 1 }) // never equal: nothing is dropped
+	}
+	return w
 }
 
 // boundedStride keeps the number of fault positions per case bounded (by case
@@ -198,7 +243,7 @@ func runSink(c Case, o *kit.Obs) *kit.Failure {
 			return kit.Failf("c14/sink/panic"+feat, "sink failing at offset %d of %d (%s): panic: %v", L, size, regionOf(pf, int64(L)), p)
 		}
 		if err == nil {
-			return kit.Failf("c14/sink/error-absorbed"+feat+"{region="+regionOf(pf, int64(L))+"}", "sink accepted only %d of %d bytes (failure inside %s) but Write/Flush/Close all returned nil", L, size, regionOf(pf, int64(L)))
+			return kit.Failf("c14/sink/error-absorbed"+feat+"{region="+regionOf(pf, int64(L))+"}", "sink accepted only %d of %d bytes (failure inside %s) but Write/Flush/Close all returned nil (%d WriteRows calls returned a short count with a nil error)", L, size, regionOf(pf, int64(L)), shortWrites)
 		}
 		regions[regionOf(pf, int64(L))] = true
 		o.Metric("sink_offsets_tried", 1)
@@ -216,6 +261,7 @@ func runSink(c Case, o *kit.Obs) *kit.Failure {
 	}
 	o.ClassIf(stride == 1, "exhaustive-offsets")
 	o.ClassIf(c.Transient, "transient-failure")
+	o.ClassIf(c.Wrap != "", "through-"+c.Wrap+"-row-writer")
 	o.ClassIf(c.Big, "big-row-group")
 	if len(regions) >= 3 || c.Enc != 0 {
 		o.NonTrivial()
@@ -307,6 +353,11 @@ func readAll(r io.ReaderAt, size int64, cols []ref.Column, opts ...parquet.FileO
 			return rows, err, nil
 		}
 	}
+	// the column-level page readers (Column.Pages spans the row groups) must see the same failures:
+	// they either fail or deliver every value of their column
+	if err := readColumnPages(f, cols, len(rows)); err != nil {
+		return rows, err, nil
+	}
 	// touching the lazily loaded metadata is part of "reading the file"
 	for _, rg := range f.RowGroups() {
 		for _, cc := range rg.ColumnChunks() {
@@ -322,6 +373,56 @@ func readAll(r io.ReaderAt, size int64, cols []ref.Column, opts ...parquet.FileO
 	}
 	return rows, nil, nil
 }
+
+// errIncompleteColumn marks a column page reader that ended cleanly before its column was complete.
+type errIncompleteColumn struct {
+	col       int
+	rows, num int64
+}
+
+func (e *errIncompleteColumn) Error() string {
+	return fmt.Sprintf("Column.Pages of column %d ended with io.EOF after %d of %d rows", e.col, e.rows, e.num)
+}
+
+func readColumnPages(f *parquet.File, cols []ref.Column, numRows int) error {
+	for ci := range cols {
+		col := f.Root()
+		for _, name := range cols[ci].Path {
+			if col = col.Column(name); col == nil {
+				return nil
+			}
+		}
+		pages := col.Pages()
+		rows := int64(0)
+		for {
+			p, err := pages.ReadPage()
+			if err != nil {
+				pages.Close()
+				if errors.Is(err, io.EOF) {
+					break
+				}
+				return err
+			}
+			vals := make([]parquet.Value, p.NumValues())
+			if _, err := p.Values().ReadValues(vals); err != nil && !errors.Is(err, io.EOF) {
+				parquet.Release(p)
+				pages.Close()
+				return err
+			}
+			rows += p.NumRows()
+			parquet.Release(p)
+		}
+		if rows != f.NumRows() {
+			return &silentLoss{&errIncompleteColumn{col: ci, rows: rows, num: f.NumRows()}}
+		}
+	}
+	return nil
+}
+
+// silentLoss wraps a defect detected by the harness itself (not an error reported by the library).
+type silentLoss struct{ err error }
+
+func (s *silentLoss) Error() string { return s.err.Error() }
 
 func prefixOK(cols []ref.Column, want [][][]ref.LV, got []parquet.Row) string {
 	if len(got) > len(want) {
@@ -384,6 +485,10 @@ func runRead(c Case, o *kit.Obs) *kit.Failure {
 				rows, err, p = readAll(&limitedReader{data: data, n: n}, int64(size), cols)
 			}
 			what := []string{"opened with its own length", "served under the true size"}[mode]
+			var sl *silentLoss
+			if errors.As(err, &sl) {
+				return kit.Failf("c14/truncation/column-pages-silent-loss", "prefix of %d/%d bytes %s: %v", n, size, what, sl)
+			}
 			if p != nil {
 				return kit.Failf("c14/truncation/panic{region="+regionOf(pf, int64(n))+"}", "prefix of %d/%d bytes %s: panic: %v", n, size, what, p)
 			}
@@ -402,6 +507,10 @@ func runRead(c Case, o *kit.Obs) *kit.Failure {
 		for _, short := range []bool{false, true} {
 			src := &faultyReader{data: data, fail: i, short: short}
 			rows, err, p := readAll(src, int64(size), cols)
+			var sl *silentLoss
+			if errors.As(err, &sl) {
+				return kit.Failf("c14/source/column-pages-silent-loss", "ReadAt call %d of %d failing (short=%v): %v", i, ncalls, short, sl)
+			}
 			if p != nil {
 				return kit.Failf("c14/source/panic", "ReadAt call %d of %d failing (short=%v): panic: %v", i, ncalls, short, p)
 			}
